@@ -37,7 +37,8 @@ REQUIRED_COUNTERS = {'strings_compared': 3000, 'gfortran_confirmed_frontend_read
 ASSUMPTIONS = ['the FP frontend tree of `x = s` is the reference meaning of s (property statement); its reading is '
                'cross-checked against the generating grammar for every string and against gfortran on a sample',
                'strings where these references disagree among themselves are discarded and counted (inconclusive above 1 %)']
-BUDGET_S = {'quick': 600, 'thorough': 3000}
+BUDGET_S = {'quick': 1200, 'thorough': 3600}
+WATCHDOG_S = {'quick': 3000, 'thorough': 9000}
 CASE_TIMEOUT_S = 300
 NSTR = 40
 NVAL = 8
